@@ -3,6 +3,7 @@ package main
 import (
 	"fmt"
 	"go/types"
+	"regexp"
 	"runtime/debug"
 	"sort"
 	"strings"
@@ -24,6 +25,8 @@ type FuncResult struct {
 	Stale     bool
 	ScriptLen int
 }
+
+var identRe = regexp.MustCompile(`[A-Za-z_][A-Za-z0-9_]*`)
 
 // VerifyFunc generates all obligations of one function under contract.
 func (w *World) VerifyFunc(ct *Contract) (res *FuncResult) {
@@ -71,8 +74,39 @@ func (w *World) VerifyFunc(ct *Contract) (res *FuncResult) {
 		e.comps.Register(name, "Bool")
 		e.sc.Assert(not(e.Get(entry, name)))
 	}
-	// requires are assumed at entry
+	// invariants of package-level variables hold at the entry of every function (they are proved for
+	// the state the package initialiser leaves behind; the variables are checked never to be assigned
+	// elsewhere; that nobody modifies what they refer to is an assumption listed in the evidence)
 	fr.callN = map[string]int{}
+	for _, gi := range w.ct.GlobalInvs {
+		if w.pkgByPath[gi.Pkg] == nil {
+			continue
+		}
+		if fn.Synthetic == "package initializer" && fn.Pkg != nil && fn.Pkg.Pkg.Path() == gi.Pkg {
+			continue
+		}
+		// every package-level variable the invariant mentions must be assigned by the initialiser only
+		mutable := ""
+		for _, tok := range identRe.FindAllString(gi.Clause.Src, -1) {
+			if obj, ok := w.pkgByPath[gi.Pkg].Scope().Lookup(tok).(*types.Var); ok && obj != nil {
+				if !w.immutableGlobal(gi.Pkg + "." + tok) {
+					mutable = tok
+				}
+			}
+		}
+		if mutable != "" {
+			w.contractErrors = append(w.contractErrors, fmt.Sprintf("%s:%d: globalinv mentions %s, which is assigned outside the package initialiser", gi.Clause.File, gi.Clause.Line, mutable))
+			continue
+		}
+		env := &Env{e: e, pkg: gi.Pkg, vars: map[string]Val{}, fr: fr}
+		f := e.evalBoolEnv(env, gi.Clause.Expr, entry, entry, gi.Clause)
+		if e.evalFailed {
+			continue
+		}
+		e.sc.Assert(f)
+		e.trusted["global invariant of "+shortOfKey(gi.Pkg)+" holds at function entry ("+gi.Clause.Src+"): proved for the package initialiser; what the variables refer to is assumed not to be modified afterwards"] = true
+	}
+	// requires are assumed at entry
 	for _, rq := range ct.Requires {
 		f := e.evalBool(fr, rq.Expr, entry, entry, rq)
 		if e.evalFailed {
